@@ -353,6 +353,9 @@ pub fn run(prop: &str, tier: &str, out: Option<&Path>) -> i32 {
             };
             let depth = if thorough {
                 if small_geometry() { 5 } else { 4 }
+            } else if llfree::TREE_HUGE > 4 {
+                // quick tier, larger geometry: shallower
+                2
             } else {
                 3
             };
